@@ -95,7 +95,7 @@ func generate(r *hxlib.Run, emit func(hxlib.Case)) {
 		}
 	}
 	// (a) object → text → object
-	for i := 0; i < r.Budget(6000, 250000); i++ {
+	for i := 0; i < r.Budget(20000, 250000); i++ {
 		wf := g.rng.Intn(5) != 0
 		in := &rtIn{prefix: g.prefix(), limit: g.limit(wf), offset: g.limit(wf)}
 		if g.rng.Intn(12) != 0 {
@@ -120,14 +120,14 @@ func generate(r *hxlib.Run, emit func(hxlib.Case)) {
 		}
 	}
 	// (b) text → object: sentences of the documented grammar, then mutations of sentences and of printed queries
-	for i := 0; i < r.Budget(6000, 250000); i++ {
+	for i := 0; i < r.Budget(20000, 250000); i++ {
 		s := g.sentence(g.rng.Intn(maxDepth))
 		g.emitGS(emit, "gs", s)
 		if i%3 == 0 {
 			keep(s.render())
 		}
 	}
-	for i := 0; i < r.Budget(8000, 400000); i++ {
+	for i := 0; i < r.Budget(30000, 400000); i++ {
 		t := g.pick(prints)
 		for k := 1 + g.rng.Intn(2); k > 0; k-- {
 			t = g.mutate(t)
@@ -135,7 +135,7 @@ func generate(r *hxlib.Run, emit func(hxlib.Case)) {
 		g.emitParse(emit, "mutated", t)
 	}
 	// (c) raw strings
-	for i := 0; i < r.Budget(20000, 2000000); i++ {
+	for i := 0; i < r.Budget(80000, 2000000); i++ {
 		if i%4 == 3 {
 			g.emitParse(emit, "raw-bytes", g.rawBytes())
 		} else {
@@ -147,9 +147,9 @@ func generate(r *hxlib.Run, emit func(hxlib.Case)) {
 func main() {
 	hxlib.Main(&hxlib.Harness{
 		Prop: "C11",
-		Rule: "three generators, every choice seeded: (a) rt = a query tree built through the API (all 18 operators + invalid ones, and/or/not nesting to depth 4 quick / 6 thorough, widths 0–4, every operand class incl. int64 extremes, textual operands, strings over an alphabet with spaces, quotes, backslashes, parentheses, commas, multi-byte runes; any prefix/orderby/limit/offset) → Check → Print → ParseQuery → Print, with MatchesRecord on 3 harness records in JSON and struct form before and after; (b) gs = sentences of the README grammar (all operator aliases, quoted/escaped/plain words, whitespace variants, not-forms, groups ending the condition list), rendered independently and parsed; mutated sentences/prints (token drop/dup/swap, unbalanced quotes and parentheses, trailing backslash or multi-byte rune, keywords as keys, byte cuts); (c) raw strings incl. invalid UTF-8 (implementation only). A case is non-trivial if it is a checked query with a where clause (rt), a grammar sentence with a where clause (gs) or an input longer than 6 bytes (parse/lex); distinct by the hash of its op line.",
+		Rule: "three generators, every choice seeded: (a) rt = a query tree built through the API (all 18 operators + invalid ones, and/or/not nesting to depth 4 quick / 6 thorough, widths 0–4, every operand class incl. int64 extremes, textual operands, strings over an alphabet with spaces, quotes, backslashes, parentheses, commas, multi-byte runes; any prefix/orderby/limit/offset) → Check → Print → ParseQuery → Print, with MatchesRecord on 3 harness records in JSON and struct form before and after; (b) gs = sentences of the README grammar (all operator aliases, quoted/escaped/plain words, whitespace variants, not-forms, groups ending the condition list), rendered independently and parsed; every query ParseQuery returns is itself printed and re-parsed; mutated sentences/prints (token drop/dup/swap, unbalanced quotes and parentheses, trailing backslash or multi-byte rune, keywords as keys, byte cuts); (c) raw strings incl. invalid UTF-8 (implementation only). A case is non-trivial if it is a checked query with a where clause (rt), a grammar sentence with a where clause (gs) or an input longer than 6 bytes (parse/lex); distinct by the hash of its op line.",
 		Generate: generate,
-		NewExec:  func(*hxlib.Run) hxlib.Exec { return exec{} },
+		NewExec:  func(r *hxlib.Run) hxlib.Exec { return exec{r} },
 		Monitor:  monitor,
 	})
 }
